@@ -38,6 +38,17 @@ static ivec layer_at(const imat & A, const ivec & v) {
     covfie::array::array<T, N> c;
     for (std::size_t i = 0; i < N; ++i) c[i] = (T)v[i];
     auto r = vw.at(c);
+    {   // the same transform reached by move assignment / swap over a field that held another transform
+        covfie::field<AF> other(covfie::make_parameter_pack(typename AF::configuration_t(ca::affine<N, T>(ca::matrix<N, N + 1, T>::identity())), std::monostate{}));
+        covfie::field<AF> g(other);
+        g = covfie::field<AF>(f);
+        auto r2 = typename covfie::field<AF>::view_t(g).at(c);
+        covfie::field<AF> h(other), f2(f);
+        std::swap(h, f2);
+        auto r3 = typename covfie::field<AF>::view_t(h).at(c);
+        ++g_checks;
+        for (std::size_t i = 0; i < N; ++i) if (r2[i] != r[i] || r3[i] != r[i]) { mismatch("affine-layer/after-move-assignment-or-swap", {{"A", A}, {"v", v}}); break; }
+    }
     ivec o(N);
     for (std::size_t i = 0; i < N; ++i) { o[i] = (long)r[i]; if ((T)o[i] != r[i]) o[i] = 999999999; }
     // configuration read back
